@@ -209,7 +209,7 @@ func (tb *TB) Extract(t *Term, hi, lo int) *Term {
 			return tb.Ite(t.Args[0], tb.Extract(t.Args[1], hi, lo), tb.Extract(t.Args[2], hi, lo))
 		}
 	case "bvadd", "bvsub", "bvmul":
-		if lo == 0 { // low bits of a sum depend only on low bits
+		if lo == 0 && hi < 16 && t.W <= 64 { // low bits of a sum depend only on low bits
 			return tb.Bin(t.Op, tb.Extract(t.Args[0], hi, 0), tb.Extract(t.Args[1], hi, 0))
 		}
 	}
@@ -221,6 +221,29 @@ func (tb *TB) Concat(hi, lo *Term) *Term {
 		v := new(big.Int).Lsh(hi.big(), uint(lo.W))
 		v.Or(v, lo.big())
 		return tb.BigConst(hi.W+lo.W, v)
+	}
+	// concat(extract(t, n-1, k), extract(t, k-1, 0)) = t
+	if hi.Op == "extract" && lo.Op == "extract" && hi.Args[0] == lo.Args[0] {
+		t := hi.Args[0]
+		hh, hl := int(hi.K>>16), int(hi.K&0xffff)
+		lh, ll := int(lo.K>>16), int(lo.K&0xffff)
+		if hl == lh+1 {
+			return tb.Extract(t, hh, ll)
+		}
+	}
+	// concat(sext(msb(lo)), lo) = sext(lo)
+	if hi.Op == "sext" && hi.Args[0].Op == "extract" && hi.Args[0].Args[0] == lo && hi.Args[0].W == 1 && int(hi.Args[0].K>>16) == lo.W-1 {
+		return tb.Ext("sext", lo, hi.W+lo.W)
+	}
+	if hi.Op == "extract" && hi.W == 1 && hi.Args[0] == lo && int(hi.K>>16) == lo.W-1 {
+		return tb.Ext("sext", lo, 1+lo.W)
+	}
+	// concat(extract(sext(x)) high part, x)
+	if hi.Op == "extract" && hi.Args[0].Op == "sext" && hi.Args[0].Args[0] == lo && int(hi.K&0xffff) == lo.W {
+		return tb.Extract(hi.Args[0], int(hi.K>>16), 0)
+	}
+	if hi.IsConst() && hi.big().Sign() == 0 {
+		return tb.Ext("zext", lo, hi.W+lo.W)
 	}
 	return tb.mk("concat", hi.W+lo.W, 0, "", hi, lo)
 }
